@@ -645,6 +645,7 @@ class Engine:
         self.functions = set()
         self.profile = profile
         self.path_records = []
+        self.smt_samples = []
 
     # variables ---------------------------------------------------------------------------------
     def fresh(self, name, positive=False, param=False):
@@ -741,6 +742,13 @@ class Engine:
             if r2 != z3.unknown:
                 r, s = r2, s2
         self.qcache[key] = (str(r), chosen, extra)    # keep ASTs alive so ids stay unique
+        if kind == 'ob_queries' and r != z3.unknown and len(self.smt_samples) < 2:
+            try:
+                txt = s.sexpr()
+                if len(txt) < 20000 and '*' in txt:
+                    self.smt_samples.append((str(r), txt))
+            except Exception:
+                pass
         return str(r), (s.model() if (want_model and r == z3.sat) else None)
 
     def check_lin(self, e):
